@@ -2000,6 +2000,10 @@ class t2data(object):
         self.convert_AUTOUGH2_parameters_to_TOUGH2(warn, MP)
         self.simulator = ''
         self.delete_section('SIMUL')
+        # (the extra precision auxiliary file is AUTOUGH2-specific: all sections
+        # go back into the main data file)
+        self.extra_precision = []
+        self.echo_extra_precision = True
         self.convert_AUTOUGH2_generators_to_TOUGH2(warn)
         self.convert_short_to_history()
 
